@@ -16,6 +16,8 @@ type Ctx struct {
 	Tier string
 	// VerifDir is /verif (fixtures, mutants).
 	VerifDir string
+
+	sql *sqlResult
 }
 
 type PropFunc func(c *Ctx)
